@@ -577,7 +577,7 @@ TRUSTED_BASE = [
     'hand-written models of dependencies: cosmossdk.io/math Int/LegacyDec, sdk.Coins, x/bank send/mint, x/distribution fee sweep and community pool, x/params Subspace.Update/Modified, cachekv snapshot iterators, PrefixEndBytes, Go time.Format (Hinnant civil-from-days), signature verification as an oracle bit',
     'modelled rather than verified: all hub keeper/handler/hook/genesis/query code is modelled by hand (lean/Hub/Model) and tied by the correspondence check on seeded histories',
     'the loader of implementation states (lean/Hub/Model/Load.lean) and the monitor loop (hubmodel --implmon); the per-property projections and failing-input rules (tools/propdefs.py, section_relevant / concrete_failure in check.py, round-trip analysis in tools/compare.py)',
-    'test operations of the line protocol that are not operations of the configuration domain: jump (the keepers own SetCount, forwards only; Props/C18Jump shows the invariants survive it), inspect (every listing getter under recover)',
+    'test operations of the line protocol that are not operations of the configuration domain: jump (the keepers own SetCount, forwards only; Props/C18Jump shows the invariants survive it), inspect (every listing getter under recover), restart (a new application instance over the same database between two blocks)',
     'JSON: the text layer (encoding/json) and the reading of gogoproto jsonpb / ProtoCodec behind lean/Hub/SDK/ProtoJson.lean (validated by probe19: tree and predicted outcome compared on every generated value)',
 ]
 
@@ -1019,6 +1019,62 @@ def run_determinism(tier, seed, th):
                                           'failing_input': ops, 'line': j, 'run1': a[j][:300].decode(errors='replace') if j < len(a) else '',
                                           'run2': b[j][:300].decode(errors='replace') if j < len(b) else ''})
                 break
+    # the same history with the process "restarted" between blocks (`restart`: a new application instance over the
+    # same database): nothing the application keeps in memory between blocks may matter. Generated histories of the
+    # governance profiles and the corpus histories that change parameters.
+    res['restart_histories'] = 0
+    def with_restarts(src, dst):
+        n = 0
+        with open(src) as fi, open(dst, 'w') as fo:
+            for line in fi:
+                fo.write(line)
+                if line.strip() == 'end':
+                    n += 1
+                    if n % 3 == 0:
+                        fo.write('restart\n')
+    def strip_restarts(out):
+        keep, skip = [], 0
+        for l in out.split(b'\n'):
+            if l.startswith(b'> restart'):
+                skip = 1
+                continue
+            if skip and l.startswith(b'R '):
+                skip = 0
+                continue
+            keep.append(l)
+        return keep
+    cands = []
+    for i in range(2 if tier == 'quick' else 8):
+        ops = os.path.join(cdir, 'r%d.ops' % i)
+        prof = ['govdelay', 'gov'][i % 2]
+        p = subprocess.run([os.path.join(BIN, 'hubsim'), 'gen', '-seed', str(seed * 91 + i), '-blocks', str(90 if tier == 'quick' else 300), '-profile', prof, '-ops', ops],
+                           stdout=subprocess.DEVNULL, stderr=subprocess.PIPE, timeout=1800)
+        if p.returncode != 0:
+            raise Broken('determinism (restart) generation failed: ' + p.stderr.decode(errors='replace')[-800:])
+        cands.append(ops)
+    for ops in sorted(glob.glob(os.path.join(ROOT, 'corpus', '*.ops'))):
+        if any(l.startswith('gov ') for l in open(ops)):
+            cands.append(ops)
+    for ops in cands:
+        ops2 = os.path.join(cdir, 'restart_' + os.path.basename(ops))
+        with_restarts(ops, ops2)
+        outs = []
+        for f in (ops, ops2):
+            with open(f, 'rb') as fi:
+                p = subprocess.run([os.path.join(BIN, 'hubsim'), 'run'], stdin=fi, stdout=subprocess.PIPE, stderr=subprocess.PIPE, timeout=900)
+            outs.append(p.stdout)
+        if b'R reject:restart' in outs[1]:
+            raise Broken('restart refused by the harness: ' + ops2)
+        a, b = outs[0].split(b'\n'), strip_restarts(outs[1])
+        res['restart_histories'] += 1
+        res['lines_compared'] += len(a)
+        if a != b and len(res['violations']) < 5:
+            j = next((x for x in range(min(len(a), len(b))) if a[x] != b[x]), min(len(a), len(b)))
+            res['violations'].append({'msg': 'same history, different result after a process restart between blocks',
+                                      'failing_input': ops2, 'line': j, 'run1': a[j][:300].decode(errors='replace') if j < len(a) else '',
+                                      'run2': b[j][:300].decode(errors='replace') if j < len(b) else ''})
+        else:
+            os.remove(ops2)
     json.dump(res, open(summ, 'w'), indent=1)
     return res
 
